@@ -50,7 +50,7 @@ class Emitter:
 
     def _declare_var(self, t):
         name = _sym(t.args[0])
-        sort = {"R": "Real", "I": "Int", "B": "Bool"}[t.sort]
+        sort = {"R": "Real", "I": "Int", "B": "Bool", "F32": "(_ FloatingPoint 8 24)", "F64": "(_ FloatingPoint 11 53)"}[t.sort]
         self.decls[name] = "(declare-const %s %s)" % (name, sort)
         return name
 
@@ -141,6 +141,23 @@ class Emitter:
                 return "(to_real %s)" % g(n.args[0])
             if op == "floor":
                 return "(to_int %s)" % g(n.args[0])
+            if op == "fconst":
+                bits = n.args[0]
+                if n.sort == "F32":
+                    b = format(bits, "032b")
+                    return "(fp #b%s #b%s #b%s)" % (b[0], b[1:9], b[9:])
+                b = format(bits, "064b")
+                return "(fp #b%s #b%s #b%s)" % (b[0], b[1:12], b[12:])
+            if op == "fminpos":
+                if n.sort == "F32":
+                    return "(fp #b0 #b00000000 #b00000000000000000000001)"
+                return "(fp #b0 #b00000000000 #b%s1)" % ("0" * 51)
+            if op in ("fadd", "fsub", "fmul", "fdiv"):
+                return "(fp.%s %s %s %s)" % (op[1:], n.args[2], g(n.args[0]), g(n.args[1]))
+            if op == "fneg":
+                return "(fp.neg %s)" % g(n.args[0])
+            if op == "fcmp":
+                return "(fp.%s %s %s)" % (n.args[0], g(n.args[1]), g(n.args[2]))
             if op == "imod":
                 return "(mod %s %d)" % (g(n.args[0]), n.args[1])
             if op == "idiv":
@@ -192,6 +209,8 @@ def build_script(registry, assertions, logic=None, want_model=True, timeout_ms=N
 
 def guess_logic(terms, registry):
     has_uf = has_int = has_real = nonlin = False
+    if any(t.sort in ("F32", "F64") for t in tm.walk(terms)):
+        return "QF_FP"
     for t in tm.walk(terms):
         if t.op == "app" and registry.is_uf(t.args[0]):
             has_uf = True
@@ -266,6 +285,23 @@ def _val(e):
         return a / b if not isinstance(a, float) and not isinstance(b, float) else float(a) / float(b)
     if h == "root-obj":
         return _root_obj(e)
+    if h == "fp" and len(e) == 4:
+        import struct
+
+        bits = "".join(x[2:] if x.startswith("#b") else format(int(x[2:], 16), "0%db" % (4 * len(x[2:]))) for x in e[1:])
+        if len(bits) == 32:
+            return float(struct.unpack(">f", int(bits, 2).to_bytes(4, "big"))[0])
+        if len(bits) == 64:
+            return float(struct.unpack(">d", int(bits, 2).to_bytes(8, "big"))[0])
+        return None
+    if h == "_" and len(e) >= 2 and e[1] in ("+zero", "-zero"):
+        return 0.0
+    if h == "_" and len(e) >= 2 and e[1] in ("+oo",):
+        return float("inf")
+    if h == "_" and len(e) >= 2 and e[1] in ("-oo",):
+        return float("-inf")
+    if h == "_" and len(e) >= 2 and e[1] == "NaN":
+        return float("nan")
     if h in ("+", "*"):
         vals = [_val(x) for x in e[1:]]
         if any(v is None for v in vals):
